@@ -5,7 +5,7 @@ import zonegen as zg
 
 def gen(rng, tier):
     quick = tier == "quick"
-    n = 8000 if quick else 300000
+    n = 15000 if quick else 600000
     for _ in range(n):
         apex, cls, wide, recs = zg.gen_vzone(rng)
         yield f"V {zg.nm(apex)} {cls} {wide} {';'.join(recs) if recs else '-'}"
@@ -61,7 +61,7 @@ MANIFEST = {
     "level_text": ("Coq theorems (no axioms): for every add history and glue policy, validate of the model returns Err(InvalidRdata) "
                    "exactly when the flat-record reference checker does, and otherwise a list with exactly the reference "
                    "checker's set of issues (names case-insensitively); only MissingMxAddress and NsAtWildcard are warnings. "
-                   "Model tied to the code by a differential run over 8000 generated zones."),
+                   "Model tied to the code by a differential run over 15000 generated zones."),
     "level_note": ("Trusted: Coq kernel, extraction, the model's correspondence to the Rust code (differentially tested), name parsing "
                    "and RDATA equality taken as parameters."),
     "technique": "machine-checked proof in Coq (validation model vs flat-record reference checker, reusing the C06/C20 refinement) + model/implementation correspondence check",
